@@ -321,8 +321,14 @@ def r4_driver_dispatch(P, rep, ctx):
     gd = P.func(f"{DR}.get_driver_type")
     df = F(ctx, gd)
     g = df.g
-    lp = [n for n in g.nodes if n.kind == "for" and df.x(n.stmt.iter) in ("METADOR_DRIVERS.items()", "MetadorDriverEnum.to_dict().items()")]
+    ALL_DRIVERS = ("METADOR_DRIVERS.items()", "MetadorDriverEnum.to_dict().items()")
+    lp = [n for n in g.nodes if n.kind == "for" and df.x(n.stmt.iter) in ALL_DRIVERS]
+    # the same scan written as a comprehension / generator expression
+    lp += [c for x in walk_local(gd.node) if isinstance(x, (ast.GeneratorExp, ast.ListComp)) for c in x.generators if df.x(c.iter) in ALL_DRIVERS]
     falls = [p for p in g.pred.get(g.exit, []) if not isinstance(g.nodes[p].stmt, ast.Return)]
+    falls += [i for i, v in df.returns() if v is None or (isinstance(v, ast.Constant) and v.value is None)]
+    if not df.raises():
+        falls.append("no raise")
     rep.check(bool(lp) and not falls, "C09.R4", gd.qual, "get_driver_type checks every driver class and raises for unknown objects", gd.loc(), construct="get_driver_type", message="get_driver_type can fall through without a result")
     thf = P.func(f"{DR}.to_h5filelike")
     th = F(ctx, thf)
